@@ -274,6 +274,32 @@ static struct ment *mt_get(const void *p, int create)
 	return NULL;
 }
 
+/* remote messages are identified across ranks by (destination rank, sender id bits, sequence number) */
+static uint64_t *EP; /* keys of early anti-messages stored and not yet matched */
+static size_t EP_cap;
+static uint64_t rkey(const struct rsv_rec *r)
+{
+	return ((uint64_t)(r->rank & 0xf) << 60) ^ ((uint64_t)(r->m_flags & ~3u) << 28) ^ r->m_seq ^ 0x8000000000000000ULL;
+}
+static int ep_find(uint64_t k, int insert, int erase)
+{
+	size_t h = (size_t)((k * 0x9e3779b97f4a7c15ULL) >> 40);
+	for(size_t i = 0; i < EP_cap; i++) {
+		uint64_t *s = &EP[(h + i) & (EP_cap - 1)];
+		if(*s == k) {
+			if(erase)
+				*s = 1; /* tombstone */
+			return 1;
+		}
+		if(*s == 0) {
+			if(insert)
+				*s = k;
+			return 0;
+		}
+	}
+	return 0;
+}
+
 static int same_ev(const struct ref_ev *e, const struct rsv_rec *r)
 {
 	return !memcmp(&e->t, &r->m_t, sizeof(double)) && e->type == r->m_type && e->size == r->m_size && e->plhash == r->m_plhash;
@@ -311,6 +337,8 @@ static void walk_trace(void)
 	while(MT_cap < n / 2 + 1024)
 		MT_cap <<= 1;
 	MT = calloc(MT_cap, sizeof *MT);
+	EP_cap = 1 << 16;
+	EP = calloc(EP_cap, sizeof *EP);
 	int c06 = det; /* the ledger needs the total order */
 	double max_gvt = 0;
 
@@ -350,6 +378,11 @@ static void walk_trace(void)
 					if(e->xflags & 1)
 						rt_fail("C06", "message %p (t=%a) was extracted with its cancellation flag set and still executed by LP %llu", r->p,
 						    r->m_t, (unsigned long long)r->a);
+					if(e->remote && ep_find(rkey(r), 0, 0))
+						rt_fail("C06",
+						    "remote event (LP %llu, t=%a, seq %u) was executed although its anti-message had arrived before it and was stored: "
+						    "the cancelled event was not annihilated",
+						    (unsigned long long)r->a, r->m_t, r->m_seq);
 					e->in_hist = 1;
 					e->nproc++;
 				}
@@ -418,10 +451,15 @@ static void walk_trace(void)
 				break;
 			case RSV_EV_EARLY_ANTI:
 				res->cls[K_EARLY_ANTI]++;
+				if(c06)
+					ep_find(rkey(r), 1, 0);
 				break;
 			case RSV_EV_EARLY_MATCH:
 				res->cls[K_EARLY_MATCH]++;
 				if(c06) {
+					if(!ep_find(rkey(r), 0, 1))
+						rt_fail("C06", "remote event (LP %llu, t=%a) annihilated as 'early cancelled' although no anti-message for it had arrived",
+						    (unsigned long long)r->m_dest, r->m_t);
 					e = mt_get(r->p, 1);
 					e->accounted = 1;
 				}
@@ -588,6 +626,8 @@ static void walk_trace(void)
 		free(gvts[th]);
 	free(MT);
 	MT = NULL;
+	free(EP);
+	EP = NULL;
 }
 
 /* ---- serial runtime: dispatch log against the reference (C10) ------------------------------------------------------- */
